@@ -9,6 +9,8 @@ fn pipeline_fwd(op: &Op, ctx: &dyn Context, operands: &mut dyn CoordinateSet) ->
     let mut n = usize::MAX;
     for step in &op.steps {
         if step.params.boolean("omit_fwd") {
+            #[cfg(geodesy_verif)]
+            verif_step(step, "F", true, 0, stack.len());
             continue;
         }
         let m = match step.params.name.as_str() {
@@ -17,6 +19,8 @@ fn pipeline_fwd(op: &Op, ctx: &dyn Context, operands: &mut dyn CoordinateSet) ->
             "stack" => stack_fwd(&mut stack, operands, &step.params),
             _ => step.apply(ctx, operands, Fwd),
         };
+        #[cfg(geodesy_verif)]
+        verif_step(step, "F", false, m, stack.len());
         n = n.min(m);
     }
 
@@ -34,6 +38,8 @@ fn pipeline_inv(op: &Op, ctx: &dyn Context, operands: &mut dyn CoordinateSet) ->
     let mut n = usize::MAX;
     for step in op.steps.iter().rev() {
         if step.params.boolean("omit_inv") {
+            #[cfg(geodesy_verif)]
+            verif_step(step, "I", true, 0, stack.len());
             continue;
         }
         // Note: Under inverse invocation "push" calls pop and vice versa
@@ -43,6 +49,8 @@ fn pipeline_inv(op: &Op, ctx: &dyn Context, operands: &mut dyn CoordinateSet) ->
             "stack" => stack_inv(&mut stack, operands, &step.params),
             _ => step.apply(ctx, operands, Inv),
         };
+        #[cfg(geodesy_verif)]
+        verif_step(step, "I", false, m, stack.len());
         n = n.min(m);
     }
 
@@ -51,6 +59,22 @@ fn pipeline_inv(op: &Op, ctx: &dyn Context, operands: &mut dyn CoordinateSet) ->
         n = operands.len();
     }
     n
+}
+
+#[cfg(geodesy_verif)]
+fn verif_step(step: &Op, dir: &str, skipped: bool, count: usize, depth: usize) {
+    crate::verif::emit(
+        "step",
+        vec![
+            ("id", format!("{:?}", step.id)),
+            ("name", step.params.name.clone()),
+            ("def", step.descriptor.definition.clone()),
+            ("dir", dir.to_string()),
+            ("skipped", skipped.to_string()),
+            ("count", count.to_string()),
+            ("depth", depth.to_string()),
+        ],
+    );
 }
 
 // ----- C O N S T R U C T O R ---------------------------------------------------------
